@@ -304,6 +304,13 @@ class ACCParallelDirective(ACCRegionDirective):
         if self.ancestor((ACCParallelDirective, ACCKernelsDirective)):
             raise GenerationError(
                 "Cannot nest OpenACC parallel or kernels regions.")
+        data_dirs = self.walk((ACCDataDirective, ACCEnterDataDirective,
+                               ACCUpdateDirective))
+        if data_dirs:
+            raise GenerationError(
+                f"An OpenACC parallel or kernels region cannot contain "
+                f"OpenACC data, enter data or update directives but found "
+                f"{[type(node).__name__ for node in data_dirs]}.")
         super().validate_global_constraints()
 
     def gen_code(self, parent):
@@ -676,6 +683,13 @@ class ACCKernelsDirective(ACCRegionDirective):
         if self.ancestor((ACCParallelDirective, ACCKernelsDirective)):
             raise GenerationError(
                 "Cannot nest OpenACC parallel or kernels regions.")
+        data_dirs = self.walk((ACCDataDirective, ACCEnterDataDirective,
+                               ACCUpdateDirective))
+        if data_dirs:
+            raise GenerationError(
+                f"An OpenACC parallel or kernels region cannot contain "
+                f"OpenACC data, enter data or update directives but found "
+                f"{[type(node).__name__ for node in data_dirs]}.")
         super().validate_global_constraints()
 
     def gen_code(self, parent):
